@@ -53,6 +53,13 @@ def start_world(rng):
         for r in api["revs"]:
             if rng.random() < 0.3:
                 r["owner"] = None
+    if rng.random() < 0.15:
+        # a set that was migrated from a built-in StatefulSet: its older revisions carry the upgrade marker and none of the
+        # selector labels (helper.Upgrade), adopted or still orphaned; the marker is never removed
+        for r in api["revs"]:
+            r["marker"], r["match"] = s["name"], False
+            if rng.random() < 0.5:
+                r["owner"] = None
     if s["policy"] == "OrderedReady":
         desired = set(first_free(s["replicas"], py_slots(ann.get("delete-slots")) or set()))
         api["pods"] = [p for p in api["pods"] if not (p["phase"] in ("Failed", "Succeeded") and monitors.parse_name(p["name"])[1] not in desired)]
